@@ -24,7 +24,7 @@ for pid in allp:
 na = [{"property_id": p, "reason": props.NOT_YET.get(p, "check not built yet in this round; see DESIGN.md")} for p in allp if p not in props.PLAN]
 m = {
     "version": 1,
-    "setup_cmd": "cd /verif/harness && cp -n /repo/Cargo.lock Cargo.lock; CARGO_NET_OFFLINE=true cargo build --release --offline",
+    "setup_cmd": "for c in harness harness-rustls; do (cd /verif/$c && cp -n /repo/Cargo.lock Cargo.lock; CARGO_NET_OFFLINE=true cargo build --release --offline) || exit 1; done",
     "hooks": {"guard": "verif-hooks", "enable": "cargo feature: the harness depends on attohttpc with features = [\"verif-hooks\", ...] (path dependency on /repo)",
               "baseline_off_cmd": "cd /repo && cargo test --workspace --no-fail-fast --offline",
               "source_commits": hooks_commits, "add_only": True},
